@@ -301,11 +301,18 @@ def run(tier, seed, model_ok, spec_ok, replay=None):
                 what = "cast-changed"
             elif k < 0.7:
                 what, ry.cond = variant_cond(g, cg, ry.cond, doc)
+            elif k < 0.8 and not rt.cast:
+                # cast={} next to cast=None (different objects for Rule.__eq__), or {} on both sides (equal)
+                ry.empty_cast = True
+                what = "cast-changed"
+                if g.r.random() < 0.4:
+                    rt.empty_cast = True
+                    what = "rebuilt"
             try:
                 x_, y_ = rt.build(), ry.build()
                 model = None
                 try:
-                    model = f"(run_rule_eq {rt.coq(Tags())} {ry.coq(Tags())} {E.enc_bool(bool(rt.cast))} {E.enc_bool(bool(ry.cast))})"
+                    model = f"(run_rule_eq {rt.coq(Tags())} {ry.coq(Tags())} {E.enc_bool(rt.cast_given())} {E.enc_bool(ry.cast_given())})"
                 except E.Unencodable:
                     pass
 
